@@ -75,7 +75,8 @@ C08Step(m, o) ==
              \cup V(o.call # "change_identity" => a1.cur = o.post.id, "Rejoin-identity-is-not-the-identity-in-use")
              \cup (IF "acc" \in DOMAIN o
                    THEN V(/\ o.acc.res = o.res
-                          /\ o.acc.send = OSends(o.out)
+                          /\ o.acc.send = [i \in DOMAIN OSends(o.out) |->
+                                              [k |-> "send", dst |-> OSends(o.out)[i].dst, d |-> OSends(o.out)[i].d]]
                           /\ o.acc.timer = OTimers(o.out)
                           /\ o.acc.notify = SelectSeq(o.out, LAMBDA x : x.k = "notify")
                           /\ o.acc.backlog = 0,
